@@ -32,7 +32,7 @@ var interpretedPkgs = map[string]bool{
 	modPath: true, modPath + "/ast": true, modPath + "/parse": true, modPath + "/pm": true,
 	"strings": true, "strconv": true, "unicode": true, "unicode/utf8": true, "errors": true,
 	"sort": true, "math": true, "math/bits": true, "bytes": true, "io": true, "bufio": true,
-	"context": true, "slices": true,
+	"context": true, "slices": true, "fmt": true, "internal/fmtsort": true,
 }
 
 var noInit = map[string]bool{"errors": true, "context": true}
@@ -46,6 +46,9 @@ type loaded struct {
 
 func loadTarget(repo string, hs *HarnessSet) (*loaded, error) {
 	t0 := time.Now()
+	if os.Getenv("VERIF_REALFMT") != "" {
+		interp.UseRealFmt()
+	}
 	ov, err := hs.overlay(repo, false)
 	if err != nil {
 		return nil, err
